@@ -129,6 +129,7 @@ def run(repo, rep):
     rule_ini(repo, rep, af)
     rule_round4(repo, rep, vela, af)
     rule_round5(repo, rep, vela, af)
+    rule_values_from_file(repo, rep, af)
 
 
 # ------------------------------------------------------------------ a
@@ -688,3 +689,76 @@ def rule_round5(repo, rep, vela, af):
     kw = {k.arg: str(norm(k.value)) for k in so[0].keywords}
     rep.check(kw.get("sram_target") == "arch.arena_cache_size", "C18-c", f"{VP}:main", "the scheduler's SRAM target is the resolved arena cache size (file value overridden by the CLI)",
               f"sram_target = {kw.get('sram_target')}: the size resolved from --arena-cache-size / the configuration file is printed but not used for the compilation")
+
+
+def rule_values_from_file(repo, rep, af):
+    """(g) every value that _get_vela_config takes from the file and converts - an enumeration member by name, a number by float() / int() - is
+    converted where a failure becomes a ConfigOptionError: inside a try whose handler raises it, or after a membership test that raises; an
+    AXI port name is tested against the documented set (the memory areas a port can be connected to), not against every member of the
+    enumeration. Values are followed from `_read_config(...)` into locals and into the parameters of the class's own helpers."""
+    import re as _re
+
+    rep.clause("C18-g", "illegal values in the configuration file (unknown port / area names, non-numeric numbers) are rejected with ConfigOptionError: every name-indexed enumeration lookup and every "
+               "numeric conversion of a value read from the file is guarded; AXI port names are tested against the documented set")
+    cls_funcs = {q: fn for q, fn in af.functions.items() if q.startswith("ArchitectureFeatures.") and q != "ArchitectureFeatures._read_config"}
+    # parameters of helpers that receive a value read from the file
+    from_file_params = {}
+    for q, fn in cls_funcs.items():
+        for c in ast.walk(fn):
+            if isinstance(c, ast.Call) and isinstance(c.func, ast.Attribute) and isinstance(c.func.value, ast.Name) and c.func.value.id in ("self", "ArchitectureFeatures", "cls"):
+                tgt = cls_funcs.get(f"ArchitectureFeatures.{c.func.attr}")
+                if tgt is None:
+                    continue
+                params = [a.arg for a in tgt.args.args if a.arg not in ("self", "cls")]
+                for i, a in enumerate(c.args):
+                    if "_read_config(" in str(norm(a)) and i < len(params):
+                        from_file_params.setdefault(f"ArchitectureFeatures.{c.func.attr}", set()).add(params[i])
+
+    def in_guarding_try(node, fn, exc_names):
+        cur = node
+        while cur is not fn and cur is not None:
+            pp = af.parents.get(cur)
+            if isinstance(pp, ast.Try) and cur in pp.body:
+                for h in pp.handlers:
+                    hn = str(norm(h.type)) if h.type is not None else ""
+                    if any(e in hn for e in exc_names) and any(isinstance(x, ast.Raise) and "ConfigOptionError" in str(norm(x.exc)) for x in ast.walk(h)):
+                        return True
+            cur = pp
+        return False
+
+    n = 0
+    for q, fn in sorted(cls_funcs.items()):
+        names = set(from_file_params.get(q, set()))
+        names |= {st.targets[0].id for st in ast.walk(fn) if isinstance(st, ast.Assign) and isinstance(st.targets[0], ast.Name) and "_read_config(" in str(norm(st.value))
+                  and not (isinstance(st.value, ast.Call) and isinstance(st.value.func, ast.Name) and st.value.func.id in ("float", "int"))}
+        params = {a.arg for a in fn.args.args}
+
+        def reads_file(e):
+            t = str(norm(e))
+            return "_read_config(" in t or any(_re.search(rf"\b{v}\b", t) for v in names)
+
+        for x in ast.walk(fn):
+            if isinstance(x, ast.Subscript) and isinstance(x.value, ast.Name) and x.value.id in ("MemPort", "MemArea") and isinstance(x.ctx, ast.Load) and reads_file(x.slice):
+                n += 1
+                member_tested = isinstance(x.slice, ast.Name) and any(
+                    isinstance(st, ast.If) and st.lineno < x.lineno and st.body and isinstance(st.body[-1], ast.Raise) and f"{x.slice.id} not in" in str(norm(st.test)) for st in ast.walk(fn))
+                rep.check(member_tested or in_guarding_try(x, fn, ("KeyError",)), "C18-g", f"ethosu/vela/architecture_features.py:{q}", f"`{str(norm(x))[:70]}`: an unknown name becomes a ConfigOptionError",
+                          "the lookup is neither preceded by a membership test that raises nor inside `try ... except KeyError: raise ConfigOptionError` "
+                          "(demonstrated: const_mem_area=Axi2 ends in a KeyError traceback)")
+            if isinstance(x, ast.Call) and isinstance(x.func, ast.Name) and (x.func.id in ("float", "int") or x.func.id in params) and len(x.args) == 1 and reads_file(x.args[0]):
+                n += 1
+                rep.check(in_guarding_try(x, fn, ("ValueError",)), "C18-g", f"ethosu/vela/architecture_features.py:{q}", f"`{str(norm(x))[:70]}`: a value that is no number becomes a ConfigOptionError",
+                          "the conversion is not inside `try ... except ValueError: raise ConfigOptionError` (demonstrated: core_clock=fast and arena_cache_size=384K end in a ValueError traceback)")
+    rp = af.func("ArchitectureFeatures._read_port")
+    tests = [i_ for i_ in ast.walk(rp) if isinstance(i_, ast.If) and i_.body and isinstance(i_.body[-1], ast.Raise) and " not in " in str(norm(i_.test))]
+    ok = False
+    detail = "no membership test"
+    if tests:
+        t = str(norm(tests[0].test))
+        detail = t
+        ok = "__members__" not in t
+    rep.check(ok, "C18-g", "ethosu/vela/architecture_features.py:ArchitectureFeatures._read_port", "an AXI port name is tested against the set of memory areas a port can be connected to",
+              f"`{detail}` admits every member of MemArea: axi1_port=Shram / Unknown is accepted (and later silently replaced), axi0_port=Size raises IndexError")
+    if n < 3:
+        raise AnalysisError(f"only {n} conversions of values read from the configuration file found")
+    rep.floor("C18-g", 4)
